@@ -17,7 +17,7 @@ func init() {
 		Level: "exploration",
 		Rule: "bounded-exhaustive Muxer histories (every word up to length 5 in quick / 6 in thorough over {Add(auto), Add(a), Add(b), Remove(a), SetPCRPID(a), SetPCRPID(b), WriteTables, WriteData(a), WriteData(a,RAI)}) x " +
 			"retransmit periods {1,2,3}, plus random histories up to 200 operations x periods 1..50 incl. >32 content changes (version wrap) and failing emissions; the packet log is judged by a reference " +
-			"state machine written from the property statement (required emission points are a lower bound); distinct = hash(history word / output); non-trivial = ≥1 table emission and ≥1 WriteData",
+			"state machine written from the property statement (required emission points are a lower bound); plus long sessions (stage endurance: thousands of add/remove cycles with automatic PIDs, hundreds of emissions, 131 500 calls); distinct = hash(history word / output); non-trivial = ≥1 table emission and ≥1 WriteData",
 		Assumptions: []string{"extra table emissions are tolerated but must be current and version-consistent", "WriteData calls that fail are not counted towards the retransmit period",
 			"SetPCRPID counts as a change even when it sets the same value (the statement says 'was set')"},
 		Shards: 32,
@@ -259,6 +259,7 @@ func normDescs(ds []*astits.Descriptor) []*astits.Descriptor {
 }
 
 func runC17(c *mon.Ctx) {
+	enduranceSessions(c, func(stage string, i int64, shape string, hr *HistRun) { tablesOracle(c, "C17", stage, i, hr, true) })
 	// bounded exhaustive
 	const L = 9
 	maxLen := int(c.Pick(5, 6))
